@@ -5,6 +5,10 @@ harness/gofacts regenerates from olareg.go, referrer.go, internal/store and inte
 acquisition excludes wait-for cycles; the handlers themselves are finite sequences of atomic store actions.  The order is also
 checked across calls (coq/LockOrder.v on Gen_Locks.v: acquisitions closed over the call graph that the Go type checker
 resolves, interface calls to every implementing method, `locked` parameters followed, cache instances told apart).
+The collection gate of a repository (token channel wgBlock + request count wg) is checked on every path of every function that
+touches it: coq/Gate.v walks the control-flow trees of Gen_Gate.v (rules G1-G5: the token is given back before every return,
+RepoGet counts exactly one reference when it hands out a repository, handlers release what they obtained exactly once) and
+GateProofs.v proves what the rules buy in the protocol with any number of threads (one token, count = handles out).
 Search for a failing schedule (the proof obligations may break on a harmless rewrite): stall scenarios on the real server under a watchdog - a request holding a repository while a
 collection tick arrives and further requests queue (other repositories must stay responsive, a cancelled waiter must
 return), Close racing the collection ticker at microsecond periods, uploads racing session expiry and eviction,
@@ -181,6 +185,36 @@ def sc_unknown_session(rng, cid, store):
     return dict(id=cid, conf=conf, steps=steps, scenario="unknown-session-then-collection")
 
 
+def sc_close_queued(rng, cid, store):
+    """Close arrives while a request keeps the repository busy, the ticker's collection waits for it and another request is queued
+    behind that collection: when the first request ends everything - the collection, the queued request, Close - has to come to an end"""
+    conf = mkconf(store=store, withsubj=False, freq_ms=rng.choice([3, 5, 10]))
+    steps = base_steps(("dst",))
+    m = manifest(rng.randrange(1000))
+    put = manifest_put("dst", "copy", m, ctype=MT_OCI_M)
+    queued = [timed(rng.choice([tag_list("dst"), manifest_get("dst", "v1")]), 4000)["impl"] for _ in range(rng.randrange(1, 3))]
+    mids = [special("sleep", secs=0.04), dict(kind="async", impl=dict(op="async", par=[queued]), model="(skip)"),
+            special("sleep", secs=0.03), dict(kind="async", impl=dict(op="async", par=[[special("close")["impl"]]]), model="(skip)"),
+            special("sleep", secs=rng.choice([0.02, 0.05]))]
+    steps.append(split(put, len(m) // 2, mids))
+    steps.append(dict(kind="join", impl=dict(op="join", secs=3.0), model="(skip)", must_complete="the queued requests and Close"))
+    return dict(id=cid, conf=conf, steps=steps, scenario="close-with-queued-request")
+
+
+def sc_cancelled(rng, cid, store):
+    """requests whose client went away before they were served (context already cancelled), to an existing repository, while
+    collections run: they may be refused, but the next collection, later requests and Close complete"""
+    conf = mkconf(store=store, withsubj=False, freq_ms=rng.choice([0, 0, 20]))
+    steps = base_steps(("a",))
+    for _ in range(rng.randrange(6, 14)):
+        st = rng.choice([tag_list("a"), manifest_get("a", "v1"), blob_get("a", dg("sha256", b"layer-shared")), upload_post("a")])
+        steps.append(timed(st, -1))
+        if rng.random() < 0.2:
+            steps.append(dict(kind="gc", impl=dict(op="gc", repo="a"), model="(skip)"))
+    steps += [dict(kind="gc", impl=dict(op="gc", repo="a"), model="(skip)"), timed(tag_list("a"), 3000), special("close")]
+    return dict(id=cid, conf=conf, steps=steps, scenario="cancelled-requests-then-collection")
+
+
 def sc_gc_cycle(rng, cid, store):
     """a hand-written index.json whose entries are listed under media types that are not manifest types and name each other as
     referrers subject: the collection (explicit, and the one Close runs) must still come to an end"""
@@ -220,7 +254,7 @@ def run(ctx):
     cases = []
     for _ in range(reps):
         for store in ("mem", "dir"):
-            for f, n in ((sc_waiter, 4), (sc_close_ticker, 3), (sc_uploads, 4), (sc_mixed, 5), (sc_gc_cycle, 2), (sc_self_mount, 2), (sc_unknown_session, 4)):
+            for f, n in ((sc_waiter, 4), (sc_close_ticker, 3), (sc_uploads, 4), (sc_mixed, 5), (sc_gc_cycle, 2), (sc_self_mount, 2), (sc_unknown_session, 4), (sc_close_queued, 3), (sc_cancelled, 3)):
                 for _ in range(n):
                     if f is sc_gc_cycle and store != "dir":
                         continue
@@ -273,7 +307,7 @@ def run(ctx):
             ctx.violation("%s (%s store, tick %s): %s did not complete: %s" % (c["scenario"], c["conf"]["store"], c["conf"].get("freq_us") or c["conf"].get("freq_ms"), where, text.split("\n")[0]),
                           dict(case=replayable(c), stalled=[w for w, _ in hangs], goroutines=text[:12000]), sig)
     if not ok_props:
-        ctx.violation("proof obligations of Props_C12.v no longer check (lock discipline on the regenerated synchronisation table)",
+        ctx.violation("proof obligations of Props_C12.v no longer check (lock discipline, lock order across calls, token and reference conservation at the collection gate - all on tables regenerated from the source)",
                       dict(theorem_file="coq/Props_C12.v", log=plog[-2500:]), "C12:proof", nofail=not ctx.violations)
     ctx.coverage.update(dict(evaluations=len(cases), distinct_nontrivial=len(cases),
                              rule="stall scenarios on the real server (ServeHTTP in-process, real ticker / cache timers / eviction goroutines) under a 6 s watchdog per step; non-trivial = every case (each has concurrent or background activity)",
